@@ -1,5 +1,8 @@
 use vx::{checks, report};
 
+#[global_allocator]
+static A: vx::alloc::Counting = vx::alloc::Counting;
+
 fn main() {
     let args: Vec<String> = std::env::args().skip(1).collect();
     let Some(which) = args.first().cloned() else {
@@ -9,6 +12,7 @@ fn main() {
     match which.to_lowercase().as_str() {
         "c01" => checks::c01::main(&a),
         "c02" => checks::c02::main(&a),
+        "c03" => checks::c03::main(&a),
         "c04" => checks::c04::main(&a),
         "c05" => checks::c05::main(&a),
         "c07" => checks::c07::main(&a),
